@@ -26,10 +26,11 @@ case "$pkg" in
 esac
 tests=$(grep -oE '^func (Test[A-Za-z0-9_]+)' $demo | awk '{print $2}' | paste -sd'|')
 cp $demo $dir/zz_mutdemo_test.go
-with=$(timeout 600 go test -vet=off -count=1 -run "^($tests)\$" ./$dir/ 2>&1 | tail -3 | grep -cE "^(FAIL|panic|fatal)" )
+RACEFLAG=""; [ -n "$RACE" ] && RACEFLAG="-race"
+with=$(timeout 600 go test $RACEFLAG -vet=off -count=1 -run "^($tests)\$" ./$dir/ 2>&1 | tail -3 | grep -cE "^(FAIL|panic|fatal)" )
 withexit=$?
 git apply -R --whitespace=nowarn $d/patch.diff
-without=$(timeout 600 go test -vet=off -count=1 -run "^($tests)\$" ./$dir/ 2>&1 | tail -3 | grep -cE "^ok" )
+without=$(timeout 600 go test $RACEFLAG -vet=off -count=1 -run "^($tests)\$" ./$dir/ 2>&1 | tail -3 | grep -cE "^ok" )
 ok=no; [ "$suite" = "0" ] && [ "$with" != "0" ] && [ "$without" != "0" ] && ok=yes
 res applies=yes builds=yes suite_fail_lines=$suite demo_pkg=$dir demo_tests="$tests" demo_fails_with_patch=$([ "$with" != "0" ] && echo yes || echo no) demo_passes_without=$([ "$without" != "0" ] && echo yes || echo no) confirmed=$ok repo_head=$(cd /repo && git rev-parse --short HEAD)
 echo "$n confirmed=$ok suite_fail=$suite with=$with without=$without"
